@@ -106,7 +106,8 @@ unsigned long sslauth;
 int controldir_fd = -1;
 void tarpit(void) { ev_raw("t"); }
 size_t lloadfilefd(int fd, char **buf, const int striptab) { (void)fd; (void)striptab; *buf = NULL; return 0; }
-int domainvalid(const char * const host) { (void)host; return 0; }
+static int dv_result;
+int domainvalid(const char * const host) { (void)host; return dv_result; }
 
 static unsigned int h_sleep(unsigned int n) { char b[32]; snprintf(b, sizeof(b), "s%u", n); ev_raw(b); return 0; }
 
@@ -242,6 +243,11 @@ static void begin_step(const char *backend)
 	auth_sub_arg = behav;
 	child_pid = 0; child_reaped = 1; pipe_writes = 0;
 	pfd[0] = pfd[1] = -1; pfd_open[0] = pfd_open[1] = 0;
+	/* alternate between "descriptor 3 is free" (the pipe's read end becomes 3: fd_move() takes its
+	 * fcntl branch) and "descriptor 3 is in use" (dup2 branch, the situation in the real server) */
+	static int dummy = -1;
+	if (reccount & 1) { if (dummy < 0) dummy = open("/dev/null", O_RDONLY | O_CLOEXEC); }
+	else if (dummy >= 0) { close(dummy); dummy = -1; }
 }
 
 /* reap the child, close what the code under test left open, print what the child recorded */
@@ -383,6 +389,19 @@ int main(void)
 			if (first) printf("-");
 			putchar('\n');
 			free((void *)src);
+		} else if (strcmp(tok[0], "setup") == 0 && n == 4) {
+			/* setup <argc> <domainvalid() result> <checkpassword executable 0|1>: the real auth_setup() */
+			const char *saved = auth_check;
+			const char *argv[8] = { "Qsmtpd", "auth.example.org", atoi(tok[3]) ? saved : "/nonexistent/checkpassword", "/bin/true", "arg", NULL, NULL, NULL };
+			int argc = atoi(tok[1]);
+			if (argc < 1 || argc > 5) { puts("bad-op"); fflush(stdout); continue; }
+			argv[argc] = NULL;
+			dv_result = atoi(tok[2]);
+			ev_reset();
+			auth_setup(argc, argv);
+			printf("host=%d\n", auth_host != NULL);
+			dv_result = 0;
+			auth_check = saved;
 		} else {
 			puts("bad-op");
 		}
